@@ -43,7 +43,7 @@ def value_sets(path, go, rng):
         return [{"path": path, "vk": "float64", "bits": str(f64bits(v))} for v in (0.0, -0.0, 0.5, 1.0, 1.5, 2.5, -2.5, 10.0, 100.0, 1e300, float("inf"), float("nan"))]
     if go == "string":
         return [{"path": path, "vk": "string", "str": s.encode().hex()} for s in ("", "a", "ab", "abc", "prefix_x", "x_suffix", "héllo", "日本語", "a1b2", "ABC", "12", "admin", "x y", "90s", "1m30s",
-                                                                                  "[", "a+(", "a  b", "a b", "a\tb", " a", "a ", "A", "x  y", "a\\b", "a\"b", "a'b")] + \
+                                                                                  "[", "a+(", "Admin1", "xABCx", "a\nb", "x.go", "É", "a  b", "a b", "a\tb", " a", "a ", "A", "x  y", "a\\b", "a\"b", "a'b")] + \
                [{"path": path, "vk": "string", "str": "ff"}]
     if go == "bool":
         return [{"path": path, "vk": "bool", "bool": b} for b in (True, False)]
@@ -276,6 +276,10 @@ FIXED = [
     ("string", "(this.A % size(this.Tags)) / (0 in [1, 2, 3, 100] ? size(value) : 200) + -1 >= -size(this.M)"),
     ("int", "this.A / (this.Ok ? 2 : 1) > 0"), ("int", "(this.Ok ? 2 : 1) * value > 3"), ("int", "value - (this.Ok ? 2 : 1) > 3"),
     ("bool", "10 + 1 / int('x') >= size(this.Nums) && (!value) || (size(this.M) < 2 && 100 > size(this.Nums))"),
+    # regular expressions with flags and pure-literal patterns (a literal is not a substring test once flags are involved)
+    ("string", "value.matches('(?i)^admin')"), ("string", "value.matches('(?i)abc')"), ("string", "value.matches('(?i)b$')"), ("string", "matches(value, '(?i)^a$')"),
+    ("string", "value.matches('^admin')"), ("string", "value.matches('abc')"), ("string", "value.matches('^abc$')"), ("string", "value.matches('a.c')"),
+    ("string", "value.matches('(?s)a.b')"), ("string", "value.matches('\\\\.go$')"), ("string", "value.matches('^\\\\d+$')"), ("string", "value.matches('(?i)é')"),
     # patterns only known at run time (D35, fixed): guarded regexp.Compile
     ("string", "value.matches(this.S)"), ("string", "matches(this.S, value)"), ("string", "value.matches(this.S + '$')"), ("[]string", "value.all(x, x.matches(this.S))"),
     ("string", "this.S.matches(value)"), ("string", "value.matches('^a' + 'b')"),
